@@ -5,8 +5,10 @@
 (* group so that column readers can be created), and the expected leaves / levels by the    *)
 (* path definition of Schema.tla.  Self-check in the same run: the reference reader's DFS    *)
 (* walk (ParquetFile.SchemaLeaves) agrees with the path definition.                         *)
-EXTENDS Schema, RefWriter, ParquetFile, TLC, Json
-CONSTANTS Sizes        \* set of node counts
+EXTENDS Schema, RefWriter, ParquetFile, TLC, Json, Randomization
+CONSTANTS Sizes,       \* set of node counts
+          PerShape     \* 0: every labelling of every shape; k > 0: k labellings drawn per shape (breadth-first run, so the
+                       \* emitting invariant is evaluated once per drawn schema)
 VARIABLE st
 LeafTypes == << <<1, 0>>, <<6, 0>>, <<0, 0>>, <<5, 0>>, <<7, 2>>, <<2, 0>>, <<3, 0>>, <<4, 0>> >>
 NameOf(i) == <<110>> \o [j \in 1..(10 - i) |-> 120]      \* "n" followed by 10-i times "x": every later name is a proper prefix of every earlier one (node counts <= 9)
@@ -15,7 +17,8 @@ Shapes(n) == {ks \in [1..n -> 0..(n - 1)] : ValidForest([i \in 1..n |-> [rep |->
                                               /\ n - FoldLeft(LAMBDA a, i : a + ks[i], 0, [i \in 1..n |-> i]) >= 1}
 Init == st = [lvl |-> 0]
 Next == \/ st.lvl = 0 /\ \E n \in Sizes : st' \in [lvl : {1}, n : {n}, ks : Shapes(n)]
-        \/ st.lvl = 1 /\ st' \in [lvl : {2}, n : {st.n}, ks : {st.ks}, reps : [1..st.n -> {0, 1, 2}]]
+        \/ st.lvl = 1 /\ st' \in [lvl : {2}, n : {st.n}, ks : {st.ks},
+                                  reps : IF PerShape = 0 THEN [1..st.n -> {0, 1, 2}] ELSE RandomSubset(PerShape, [1..st.n -> {0, 1, 2}])]
 
 Nodes(s) == [i \in 1..s.n |-> [rep |-> s.reps[i], kids |-> s.ks[i]]]
 Elements(s) ==
